@@ -40,7 +40,7 @@ func (p *yieldPub) Equals(o crypto.Key) bool {
 	q, ok := o.(*yieldPub)
 	return ok && bytes.Equal(p.k, q.k)
 }
-func (p *yieldPub) Raw() ([]byte, error)  { return append([]byte{}, p.k...), nil }
+func (p *yieldPub) Raw() ([]byte, error) { return append([]byte{}, p.k...), nil }
 func (p *yieldPub) Type() crypto.KeyType { return yieldKeyType }
 func (p *yieldPub) Verify(data, sig []byte) (bool, error) {
 	vsync.Yield("verify: input assembled, not yet read")
